@@ -109,6 +109,8 @@ def run(tier, replay=None):
     v = common.Verdict('C16', tier, 'model_checking')
     scen = ['estab', 'init'] if tier == 'quick' else ['estab_loss', 'init3', 'init_ke', 'init_cookie', 'estab_rekey_ke']
     ikeprop.run(v, scen)
+    if tier == 'thorough':
+        ikeprop.run_traces(v, 400, 120)            # binding B: the IKE_SA table of recorded random schedules
     routing_probes(v)
     status_query(v)
     v.assumptions += ['two endpoints; bounds of each scenario as listed in coverage.scenarios[*].constants',
